@@ -440,46 +440,91 @@ pub fn run_batch(def: &'static PropertyDef, tier: Tier, seed: u64, workers: u64)
             .expect("spawn worker");
         (k, out, child)
     };
-    let mut children = Vec::new();
+    // all workers are watched at once (a worker that respawns after a hung case must not wait for the
+    // others); their outputs are merged in (worker, generation) order so that the result does not
+    // depend on which finished first
+    let mut children: Vec<(u64, u32, PathBuf, std::process::Child)> = Vec::new();
     for k in 0..workers {
-        children.push(spawn(k, 0));
+        let (k, out, child) = spawn(k, 0);
+        children.push((k, 0, out, child));
     }
+    let mut outputs: BTreeMap<(u64, u32), WorkerOut> = BTreeMap::new();
     let mut stats = Stats::default();
     let mut failures = Vec::new();
     let mut digests: BTreeMap<u64, u64> = BTreeMap::new();
     let mut rdigests: BTreeMap<u64, u64> = BTreeMap::new();
-    while let Some((k, out, mut child)) = children.pop() {
-        let st = child.wait().expect("wait");
-        if st.success() && out.exists() {
-            let wo: WorkerOut = serde_json::from_slice(&std::fs::read(&out).unwrap()).expect("worker output");
-            stats.merge(wo.stats);
-            failures.extend(wo.failures);
-            digests.extend(wo.digests);
-            rdigests.extend(wo.rdigests);
-            if let Some(next) = wo.resume {
-                children.push(spawn(k, next));
-            }
-        } else {
-            // worker died: attribute to the case it was executing
-            let cur = out.with_extension("cur");
-            let run = std::fs::read_to_string(&cur).ok().and_then(|s| s.trim().parse::<u64>().ok());
-            stats.inc("worker_deaths");
-            match run {
-                Some(run) => {
-                    let corpus = Corpus::load();
-                    if let Some(case) = case_for_run(def, &corpus, &load_pinned(def), tier, seed, run) {
-                        let v = Violation::new(def.id, "abort", "process", &format!("worker died ({st}) while executing a case"));
-                        failures.push((case, v));
-                    }
-                    // the runs this worker had not reached yet are still owed
-                    children.push(spawn(k, run + 1));
+    let mut deaths = 0u64;
+    let mut timeouts = 0u64;
+    let mut cut_short = false;
+    while !children.is_empty() {
+        let mut progressed = false;
+        let mut i = 0;
+        while i < children.len() {
+            let st = match children[i].3.try_wait() {
+                Ok(Some(st)) => st,
+                Ok(None) => {
+                    i += 1;
+                    continue;
                 }
-                None => {
-                    eprintln!("harness error: worker {k} died ({st}) outside a case");
+                Err(e) => {
+                    eprintln!("harness error: waiting for a worker failed: {e}");
                     std::process::exit(2);
+                }
+            };
+            progressed = true;
+            let (k, generation, out, _child) = children.swap_remove(i);
+            if st.success() && out.exists() {
+                let wo: WorkerOut = serde_json::from_slice(&std::fs::read(&out).unwrap()).expect("worker output");
+                if let Some(next) = wo.resume {
+                    timeouts += 1;
+                    // where a hung case is a violation, a handful of them is enough: a tree that hangs in
+                    // every other case would otherwise cost timeout_s per case
+                    if def.hang_class.is_some() && timeouts > 8 {
+                        cut_short = true;
+                    } else {
+                        let (k, out, child) = spawn(k, next);
+                        children.push((k, generation + 1, out, child));
+                    }
+                }
+                outputs.insert((k, generation), wo);
+            } else {
+                // worker died: attribute to the case it was executing
+                let cur = out.with_extension("cur");
+                let run = std::fs::read_to_string(&cur).ok().and_then(|s| s.trim().parse::<u64>().ok());
+                deaths += 1;
+                match run {
+                    Some(run) => {
+                        let corpus = Corpus::load();
+                        if let Some(case) = case_for_run(def, &corpus, &load_pinned(def), tier, seed, run) {
+                            let v = Violation::new(def.id, "abort", "process", &format!("worker died ({st}) while executing a case"));
+                            failures.push((case, v));
+                        }
+                        // the runs this worker had not reached yet are still owed
+                        let (k, out, child) = spawn(k, run + 1);
+                        children.push((k, generation + 1, out, child));
+                    }
+                    None => {
+                        eprintln!("harness error: worker {k} died ({st}) outside a case");
+                        std::process::exit(2);
+                    }
                 }
             }
         }
+        if !progressed {
+            std::thread::sleep(std::time::Duration::from_millis(3));
+        }
+    }
+    for (_, wo) in outputs {
+        stats.merge(wo.stats);
+        failures.extend(wo.failures);
+        digests.extend(wo.digests);
+        rdigests.extend(wo.rdigests);
+    }
+    for _ in 0..deaths {
+        stats.inc("worker_deaths");
+    }
+    if cut_short {
+        stats.inc("batch_cut_short_after_hung_cases");
     }
     let _ = std::fs::remove_dir_all(&work);
     failures.sort_by_key(|f| f.0.run);
@@ -762,6 +807,7 @@ pub fn triage(def: &'static PropertyDef, seed: u64, failures: Vec<(Case, Violati
         }
     }
     let mut new_violations = Vec::new();
+    let triage_t0 = Instant::now();
     for (c, v) in fresh.into_iter().take(40) {
         if v.class == "profile-divergence" {
             // established by comparing two builds; replay re-runs both
@@ -782,7 +828,8 @@ pub fn triage(def: &'static PropertyDef, seed: u64, failures: Vec<(Case, Violati
                 std::process::exit(2);
             }
         };
-        let (mc, mv, info) = shrink(def, &c, &v, 600);
+        // minimisation is bounded per violation (120 s) and per batch (10 min); later ones are reported as found
+        let (mc, mv, info) = if triage_t0.elapsed().as_secs() < 600 { shrink(def, &c, &v, 600) } else { (c.clone(), v.clone(), json!({"note": "not minimised: triage time budget used up"})) };
         // a shrunk case may have drifted onto a known finding's detail; keep the signature only
         let path = write_replay(&mc, &mv, seed, info);
         let st = Command::new(self_exe())
